@@ -117,3 +117,23 @@ Fixpoint chain_eqb (a b : list step) : bool :=
 (* the pattern of an id in a table *)
 Fixpoint rx_of (tbl : list (Z * rx)) (id : Z) : rx :=
   match tbl with [] => RNil | (i, r) :: q => if i =? id then r else rx_of q id end.
+
+(* ---------------------------------------------------------------- the end of the loop (HTail) *)
+(* what happens to a line that no recogniser took.  Python's `ast` decides whether the line is an expression
+   ([isexpr], computed by the harness like [asg]); an expression is handled by the expression branch (print and
+   the host-side SerialMonitor calls are skipped, anything _to_c_expr refuses raises when [Gen.LineRx.
+   tail_expr_failure_rejects]).  Anything else: a line of the list [eqs] or matched by a pattern of [rxs] has no
+   meaning on the device and is skipped; then, if [rejects], ValueError("unsupported statement") - else (the
+   parser before the repair) the line is dropped. *)
+Inductive tail_class := TExpr | TBenign | TReject | TDropped.
+Definition tail_benign (eqs : list text) (rxs : list (Z * rx)) (line : text) : bool :=
+  existsb (text_eqb line) eqs || existsb (fun p => rx_match (snd p) line) rxs.
+Definition tail_class_of (eqs : list text) (rxs : list (Z * rx)) (rejects isexpr : bool) (line : text) : tail_class :=
+  if isexpr then TExpr
+  else if tail_benign eqs rxs line then TBenign
+  else if rejects then TReject else TDropped.
+Definition tail_class_id (c : tail_class) : Z :=
+  match c with TExpr => 0 | TBenign => 1 | TReject => 2 | TDropped => 3 end.
+(* the patterns the tail tries (an `or` chain after the comparisons: first match wins), for the trace correspondence *)
+Definition tail_trace (eqs : list text) (rxs : list (Z * rx)) (isexpr : bool) (line : text) : list (Z * bool) :=
+  if isexpr then [] else if existsb (text_eqb line) eqs then [] else fst (try_imports rxs line).
